@@ -13,10 +13,12 @@ nc_path = os.path.join(V, "tools/registry/_not_claimed.json")
 nc = json.load(open(nc_path)) if os.path.exists(nc_path) else {}
 hooks_path = os.path.join(V, "tools/registry/_hooks.json")
 hooks = json.load(open(hooks_path)) if os.path.exists(hooks_path) else {"source_commits": []}
+ready_path = os.path.join(V, "tools/registry/_ready.json")
+ready = set(json.load(open(ready_path))) if os.path.exists(ready_path) else set()
 checks, na = [], []
 for p in props:
     pid = p["id"]
-    if pid in reg and os.path.exists(os.path.join(V, "tools/props", pid.lower() + ".py")):
+    if pid in ready and pid in reg and os.path.exists(os.path.join(V, "tools/props", pid.lower() + ".py")):
         r = reg[pid]
         c = {"property_id": pid,
              "quick_cmd": "./check %s --tier quick" % pid,
